@@ -3,6 +3,7 @@ package main
 import (
 	"go/token"
 	"os"
+	"sort"
 	"strings"
 
 	"golang.org/x/tools/go/ssa"
@@ -244,12 +245,24 @@ func runC09(c *Ctx) {
 // shimSpec builds the abstract model shared by the listing and signing tables.
 func shimSpec(c *Ctx, m *shimModel, onAgentCall func(method string, args []ssa.Value) absVal) *dtSpec {
 	w := c.w
+	domain := map[string][]absVal{
+		"casterr": {{K: avNil}, {K: avNonNil}},
+		"kiderr":  {{K: avNil}, {K: avNonNil}},
+		"filterr": {{K: avNil}, {K: avNonNil}},
+	}
+	if m.flagEnum {
+		// the lock state ranges over the values the field can hold
+		var ks []int64
+		for k := range m.flagVals {
+			ks = append(ks, k)
+		}
+		sort.Slice(ks, func(i, j int) bool { return ks[i] < ks[j] })
+		for _, k := range ks {
+			domain["locked"] = append(domain["locked"], absVal{K: avInt, I: k})
+		}
+	}
 	return &dtSpec{
-		Domain: map[string][]absVal{
-			"casterr": {{K: avNil}, {K: avNonNil}},
-			"kiderr":  {{K: avNil}, {K: avNonNil}},
-			"filterr": {{K: avNil}, {K: avNonNil}},
-		},
+		Domain:   domain,
 		MaxDepth: 2,
 		NoInline: map[string]bool{},
 		FieldAtom: func(obj, field string) string {
@@ -645,11 +658,14 @@ func signTable(c *Ctx, m *shimModel) {
 	for _, u := range und {
 		c.Und("R3.sign", "SignWithFlags|interpretable", w.FnPos(fn), u)
 	}
-	dom := map[string][]absVal{"casterr": spec.Domain["casterr"], "kiderr": spec.Domain["kiderr"], "filterr": spec.Domain["filterr"]}
+	dom := map[string][]absVal{"casterr": spec.Domain["casterr"], "kiderr": spec.Domain["kiderr"], "filterr": spec.Domain["filterr"], "locked": spec.Domain["locked"]}
 	rows := 0
 	for _, val := range dtValuations([]string{"locked", "filterr", "casterr", memAtom, "kiderr", "noup"}, dom) {
 		rows++
 		locked := val["locked"].B
+		if m.flagEnum {
+			locked = val["locked"].I == m.lockedK
+		}
 		ferr := val["filterr"].K == avNonNil
 		castOK := val["casterr"].K == avNil
 		mem := val[memAtom].B
